@@ -18,8 +18,11 @@
 (*  ignored part (permit): whenever the original is satisfied under a        *)
 (*                      completion, the policy is kept and its residual is   *)
 (*                      satisfied under that completion.                     *)
-(* A residual may contain error nodes ([op |-> "error"], evaluation fails)  *)
-(* and value literals that still contain unknown markers (substituted).     *)
+(* A residual may contain error nodes ([op |-> "error"], evaluation fails).  *)
+(* A placeholder that survives inside a value literal of the residual is    *)
+(* what the evaluator sees: the entity __cedar::variable::"name" (it is NOT *)
+(* substituted: a caller evaluating the residual under the completed        *)
+(* environment has no way to reach inside the literal).                     *)
 (***************************************************************************)
 EXTENDS CedarPolicy, Universe
 
@@ -95,6 +98,9 @@ DomainOf(pe, n) ==
 Completions(pe) ==
   LET ns == Names(pe) IN { c \in [ns -> EntCands \cup CtxCands \cup ValCands] : \A n \in ns : c[n] \in DomainOf(pe, n) }
 
+\* the residual as the evaluator reads it: surviving placeholders are plain entities
+AsRead(res, c) == SubstP(res, [n \in DOMAIN c |-> VEnt("__cedar::variable", n)])
+
 HasIgnored(pe) == IsIgn(pe.p) \/ IsIgn(pe.a) \/ IsIgn(pe.r) \/ IsIgn(pe.c) \/ HasIgn(pe.c)
 
 \* the completions under which the implementation's answer is NOT sound
@@ -104,11 +110,11 @@ Unsound(p, pe, keep, res) ==
   THEN { c \in Completions(pe) :
            LET env == CompleteEnv(pe, c) IN
            \* "satisfied exactly when": an erroring and an unsatisfied policy are both not satisfied
-           IF keep THEN (Outcome(SubstP(res, c), env) = "sat") # (Outcome(p, env) = "sat")
+           IF keep THEN (Outcome(AsRead(res, c), env) = "sat") # (Outcome(p, env) = "sat")
                    ELSE Outcome(p, env) = "sat" }
   ELSE IF p.effect = "permit"
   THEN { c \in Completions(pe) :
            LET env == CompleteEnv(pe, c) IN
-           Outcome(p, env) = "sat" /\ ~(keep /\ Outcome(SubstP(res, c), env) = "sat") }
+           Outcome(p, env) = "sat" /\ ~(keep /\ Outcome(AsRead(res, c), env) = "sat") }
   ELSE {}      \* a forbid policy with an ignored part: the statement requires nothing
 =============================================================================
